@@ -365,7 +365,7 @@ def angReader : ReaderTables where
   columns := [
 {(",\n").join(cols)}]
   dataKeys := {llist(a["data_keys"])}
-  notIndexedVendors := [{", ".join(VENDORS[v] for v in ni_v if v in VENDORS)}]
+  notIndexedVendors := [{", ".join(VENDORS[v] for v in sorted(ni_v) if v in VENDORS)}]
   ciName := {lstr(ni_name)}
   ciSentinel := {lint(ni_val)}
   astarUnit := {lstr(u_a if uv == "astar" else "")}
